@@ -182,3 +182,24 @@ pub fn sweep_imm() -> (u64, Vec<String>) {
     }
     (n, bad)
 }
+
+/// A long program through ONE builder object: n x `mov64 r1, 7` then `exit`, for sizes up to the
+/// 1,000,000-instruction limit - the bytes must be the concatenation of the encodings (no panic).
+pub fn builder_long(n: usize) -> Vec<String> {
+    let r = std::panic::catch_unwind(|| {
+        let mut code = BpfCode::new();
+        for _ in 0..n {
+            code.mov(Source::Imm, Arch::X64).set_dst(1).set_imm(7).push();
+        }
+        code.exit().push();
+        code.into_bytes().to_vec()
+    });
+    match r {
+        Err(e) => vec![format!("builder panicked while building a program of {} instructions: {}", n + 1, panic_msg(e))],
+        Ok(b) => {
+            let one = encode_slot(0xb7, 1, 0, 0, 7);
+            let ok = b.len() == 8 * (n + 1) && b.chunks(8).take(n).all(|c| c == one) && b[8 * n..] == encode_slot(0x95, 0, 0, 0, 0);
+            if ok { vec![] } else { vec![format!("builder program of {} instructions is not the concatenation of the encodings ({} bytes)", n + 1, b.len())] }
+        }
+    }
+}
